@@ -741,14 +741,14 @@ async fn client_response(ctx: Ctx, spec: StreamSpec, mut fut: client::ResponseFu
             ret(&ctx, Op::Response, id, idx, sid, 0, 0, false, Res::Ok, Some(m));
             drop(fut);
             let clean = read_body(ctx, idx, idx * 2 + 1, resp.into_body(), spec.resp_read.clone()).await;
-            if !clean {
-                // the response was abandoned or failed: stop listening for promises as well
+            if !clean && matches!(spec.resp_read.mode, ReadMode::StopAfter(_)) {
+                // the application abandoned the response: it stops listening for promises as well.
+                // (A response that *failed* does not stop the listener: waking it is h2's job - C06/C07.)
                 raise_stop(&stop);
             }
         }
         Err(e) => {
             ret(&ctx, Op::Response, id, idx, sid, 0, 0, false, Res::Err(Box::new(ErrInfo::from(&e))), None);
-            raise_stop(&stop);
         }
     }
 }
